@@ -8,7 +8,8 @@ Open Scope Z_scope.
 
 (* _clean_up_state with the constants of the CURRENT source; clock ticks = microseconds *)
 Definition cfg_now : cfg :=
-  mkCfg (cleanup_age_s * 1000000) cleanup_cmp_gt cleanup_needs_done cleanup_needs_not_activated done_statuses.
+  mkCfg (cleanup_age_s * 1000000) cleanup_cmp_gt cleanup_needs_done cleanup_needs_not_activated done_statuses
+        cleanup_purges_children cleanup_purges_scopes.
 
 Definition cleanup_now : Z -> state -> option state := cleanup cfg_now.
 
@@ -23,6 +24,7 @@ Definition inst_eqb (a b : inst) : bool :=
   && (i_activated a =? i_activated b) && oeqb String.eqb (i_parent a) (i_parent b)
   && leqb String.eqb (i_children a) (i_children b) && leqb String.eqb (i_actions a) (i_actions b)
   && leqb (fun x y => String.eqb (fst x) (fst y) && leqb Z.eqb (snd x) (snd y)) (i_heads a) (i_heads b)
+  && leqb (fun x y => String.eqb (fst x) (fst y) && leqb String.eqb (snd x) (snd y)) (i_scopes a) (i_scopes b)
   && (i_rest a =? i_rest b).
 
 Definition state_eqb (a b : state) : bool :=
